@@ -171,6 +171,9 @@ func C18(ctx *core.Ctx, r *core.Report) {
 	c18GrowByAppendOnly(ctx, r)
 	c18HandlerFollowsContainer(ctx, r)
 	c18MapHandlerIndexDropped(ctx, r)
+	c18ExistingEntryIsNotEmpty(ctx, r)
+	c18ClearZeroes(ctx, r)
+	c17IndexNilOnError(ctx, r)
 	c17LessComparesWholeKey(ctx, r)
 	c17SortSearch(ctx, r)
 	c18LookupBeforeCreate(ctx, r)
